@@ -771,6 +771,13 @@ class EngineC18:
                     return V("same_iteration_count", f"with stoptol={init_s['stoptol']:g} the run stops after {b2['iters']} sweeps, on the data scaled by {step['scale']:g} after {o2['iters']}")
                 if b2["iters"] < 34:
                     res.bump("probe:scaled_run_stopped_by_its_convergence_test")
+        if op in ("R2", "R2d") and alg == "cp_als":
+            # Under another verbosity the property speaks of the model (compared above, to rounding). CP-ALS reports the
+            # fit of the last sweep when it is silent and re-evaluates it by another formula when it prints; for models
+            # whose components nearly cancel the two evaluations of ||X||^2 + ||M||^2 - 2<X,M> differ far above rounding
+            # although the models are identical (thorough tier, root seed 851, run 41241: 0.847869 vs 0.847823 on
+            # identical models; earlier: section 11). Demanding equal reported fits here asks more than C18 states.
+            check_fit = False
         if check_fit and alg in ("cp_als", "tucker_als", "hosvd"):
             fa, fb = base["fit"], other["fit"]
             # the reported fit is 1 - sqrt(|cancelled quantity|)/||X||: for near-exact fits compare the
